@@ -47,6 +47,23 @@ func (s APSet) add(o APSet, suffix string) {
 	for a := range o {
 		if suffix == "" {
 			s[a] = true
+		} else if i := strings.LastIndex(a.Path, "«"); i >= 0 && strings.HasSuffix(a.Path, "»") {
+			// a.Path ends with a construction marker «F»: the value was stored into field F of a
+			// locally built struct. Selecting field F continues the path, any other field drops it.
+			f := a.Path[i+len("«") : len(a.Path)-len("»")]
+			base := a.Path[:i]
+			switch {
+			case suffix == "."+f:
+				s[AP{a.Root, base}] = true
+			case strings.HasPrefix(suffix, "."+f+".") || strings.HasPrefix(suffix, "."+f+"["):
+				s[AP{a.Root, base + suffix[len(f)+1:]}] = true
+			case strings.HasPrefix(suffix, "«"):
+				s[AP{a.Root, base + suffix}] = true
+			case strings.HasPrefix(suffix, "."):
+				// a different field of the same struct: not this value
+			default:
+				s[AP{a.Root, base + suffix}] = true
+			}
 		} else {
 			if len(a.Path) > 200 {
 				s[a] = true
@@ -93,6 +110,8 @@ type Flow struct {
 	sumCalls map[sumKey]map[*ssa.Call]bool
 	sumBusy  map[sumKey]bool
 	callsMem map[ssa.Value]map[*ssa.Call]bool
+	infMemo  map[ssa.Value]APSet
+	rawMemo  map[ssa.Value]APSet
 }
 
 type sumKey struct {
@@ -114,6 +133,65 @@ type flowCtx struct {
 
 // Influence computes the access paths influencing v, and the calls met on the way.
 func (fl *Flow) Influence(v ssa.Value) (APSet, map[*ssa.Call]bool) {
+	if fl.infMemo == nil {
+		fl.infMemo = map[ssa.Value]APSet{}
+		fl.callsMem = map[ssa.Value]map[*ssa.Call]bool{}
+	}
+	if r, ok := fl.infMemo[v]; ok {
+		return r, fl.callsMem[v]
+	}
+	r0, cs := fl.influence(v)
+	r := APSet{}
+	for a := range r0 {
+		if p, keep := normalizeMarkers(a.Path); keep {
+			r[AP{a.Root, p}] = true
+		}
+	}
+	fl.infMemo[v] = r
+	fl.callsMem[v] = cs
+	return r, cs
+}
+
+// InfluenceRaw is Influence without resolving construction markers (for callers that compose paths themselves).
+func (fl *Flow) InfluenceRaw(v ssa.Value) APSet {
+	if fl.rawMemo == nil {
+		fl.rawMemo = map[ssa.Value]APSet{}
+	}
+	if r, ok := fl.rawMemo[v]; ok {
+		return r
+	}
+	r, _ := fl.influence(v)
+	fl.rawMemo[v] = r
+	return r
+}
+
+// normalizeMarkers resolves construction markers left inside a path: «F» followed by the selection of
+// field F cancels out, followed by another field the path is infeasible, otherwise the marker is dropped.
+func normalizeMarkers(p string) (string, bool) {
+	for {
+		i := strings.Index(p, "«")
+		if i < 0 {
+			return p, true
+		}
+		j := strings.Index(p[i:], "»")
+		if j < 0 {
+			return p, true
+		}
+		j += i
+		f := p[i+len("«") : j]
+		rest := p[j+len("»"):]
+		switch {
+		case strings.HasPrefix(rest, "."+f) && (len(rest) == len(f)+1 || rest[len(f)+1] == '.' || rest[len(f)+1] == '[' || strings.HasPrefix(rest[len(f)+1:], "«")):
+			p = p[:i] + rest[len(f)+1:]
+		case strings.HasPrefix(rest, "."):
+			return "", false
+		default:
+			p = p[:i] + rest
+		}
+	}
+}
+
+func (fl *Flow) influence(v ssa.Value) (APSet, map[*ssa.Call]bool) {
 	c := &flowCtx{fl: fl, visit: map[ssa.Value]bool{}, calls: map[*ssa.Call]bool{}, closure: map[*ssa.Parameter]APSet{}}
 	return c.paths(v), c.calls
 }
@@ -386,11 +464,17 @@ func (c *flowCtx) allocContent(al *ssa.Alloc, field int) APSet {
 			if field >= 0 && u.Field != field {
 				continue
 			}
+			mark := ""
+			if field < 0 {
+				if _, isStruct := al.Type().Underlying().(*types.Pointer).Elem().Underlying().(*types.Struct); isStruct {
+					mark = "«" + fieldName(al.Type(), u.Field) + "»"
+				}
+			}
 			for _, r2 := range *u.Referrers() {
 				switch s2 := r2.(type) {
 				case *ssa.Store:
 					if s2.Addr == u {
-						out.add(c.paths(s2.Val), "")
+						out.add(c.paths(s2.Val), mark)
 					}
 				case ssa.CallInstruction:
 					// &x.F handed to a call (out-parameter)
